@@ -12,7 +12,8 @@ LEVEL = "model_checking"
 CODE = ["yowsup/layers/noise/layer.py:on_auth/on_disconnected/_in_handshake/send/receive/_flush_incoming_buffer/on_handshake_finished", "yowsup/layers/network/layer.py:YowNetworkLayer.*", "yowsup/layers/auth/layer_authentication.py", "yowsup/layers/interface/interface.py:onStreamError/onConnected/onDisconnected/connect/disconnect",
         "yowsup/layers/protocol_iq/layer.py:waitPong/gotPong/onAuthed/stop_thread/YowPingThread.run", "yowsup/layers/axolotl/layer_base.py + layer_control.py:on_connected/on_disconnected",
         "yowsup/stacks/yowstack.py:execDetached/loop", "yowsup/layers/__init__.py:emitEvent/broadcastEvent"]
-BOUNDS = {"quick": "[+ network: asyncore dispatcher histories len<=4 (6 after up+{send, peer close, disconnect request, raising handler}) with sends accepting all/half/nothing; socket dispatcher: 2 connections x connect outcome x <=2 incoming items] " 
+BOUNDS = {"quick": "[+ keep-alive thread over 3 periods, each ping answered or not] " 
+                   "[+ network: asyncore dispatcher histories len<=4 (6 after up+{send, peer close, disconnect request, raising handler}) with sends accepting all/half/nothing; socket dispatcher: 2 connections x connect outcome x <=2 incoming items] " 
                    "[+ extra cases: synchronously refused connects (len<=5), connect by event, application pings / stale pongs after up+success+ping-tick (len<=7, <=10 with a reconnect prefix)] " 
                    "all event histories of length <= 4 over {connect request, connected, socket error, peer close, disconnect request, success, failure, stream error (conflict/ack/other), ping tick, pong} "
                    "x reconnect option on/off x unconfirmed prekeys at start (passive login, key upload, reboot) (guards: events only in states where they can occur); the same with the real noise layer and handshake-done/-failed events", "thorough": "histories of length <= 8 (10 after an establishment prefix, 11 after login)"}
